@@ -74,6 +74,78 @@ def table_of(paths, body=None):
     return out
 
 
+def _parse_zone(z):
+    """'A∈[lo,hi], B∈[lo,hi]' -> [(A, lo, hi), …] (None if it does not parse)."""
+    out = []
+    rest = z
+    while rest:
+        m = re.match(r"^(.*?)∈\[(\d+),(\d+)\](?:, |$)", rest)
+        if not m:
+            return None
+        out.append((m.group(1), int(m.group(2)), int(m.group(3))))
+        rest = rest[m.end():]
+    return out
+
+
+def tables_agree(got, want):
+    """Two case tables denote the same decision function: on every combination of the case distinctions (`x is Some`
+    / `x is None`, the payload's variant) and of truth values of the tests either table mentions, both give one and the
+    same answer.  The order in which a function looks at independent, effect-free tests does not matter; what it
+    answers does.  A test the specification does not mention makes the tables disagree."""
+    import itertools
+
+    def parse(rows):
+        out = []
+        for conds, zone, oc_ in rows:
+            cs = {}
+            for c in conds:
+                m = re.match(r"^(.*) is (\w+(?: \w+)*)$", c)
+                if not m:
+                    return None
+                cs[m.group(1)] = m.group(2)
+            zs = _parse_zone(zone)
+            if zs is None or not oc_.startswith("return "):
+                return None
+            out.append((cs, zs, oc_[len("return "):]))
+        return out
+    pg, pw = parse(got), parse(want)
+    if pg is None or pw is None:
+        return False
+
+    def atoms(rows):
+        return {a for _, zs, _ in rows for a, _, _ in zs} | {r for _, _, r in rows if r not in ("0", "1")}
+    if not atoms(pg) <= atoms(pw):
+        return False
+    subjects = {}
+    for cs, _, _ in pg + pw:
+        for k, v in cs.items():
+            subjects.setdefault(k, set()).add(v)
+    if any(k not in {k2 for cs, _, _ in pw for k2 in cs} for k in subjects):
+        return False
+    names = sorted(subjects)
+    ats = sorted(atoms(pw))
+    if len(names) + len(ats) > 12:
+        return False
+
+    def answer(rows, case, truth):
+        res = set()
+        for cs, zs, r in rows:
+            if any(case.get(k) != v for k, v in cs.items()):
+                continue
+            if any(not (lo <= truth[a] <= hi) for a, lo, hi in zs):
+                continue
+            res.add(int(r) if r in ("0", "1") else truth[r])
+        return res
+    for vals in itertools.product(*[sorted(subjects[n]) for n in names]):
+        case = dict(zip(names, vals))
+        for bits in itertools.product((0, 1), repeat=len(ats)):
+            truth = dict(zip(ats, bits))
+            a, w = answer(pg, case, truth), answer(pw, case, truth)
+            if len(w) != 1 or a != w:
+                return False
+    return True
+
+
 def spec_table(rows):
     return {(tuple(sorted(canon_eq(c) for c in conds)), canon_eq(z), canon_eq(o)) for conds, z, o in rows}
 
@@ -140,7 +212,7 @@ def run(ctx):
             continue
         got = table_of(paths, b)
         want = spec_table(want)
-        ctx.ob("R-REG", short(fn) + ":table", got == want and not it.imprecise,
+        ctx.ob("R-REG", short(fn) + ":table", (got == want or tables_agree(got, want)) and not it.imprecise,
                "%s has exactly the specified case table (%d rows)" % (short(fn), len(want)), where=b.loc,
                detail={"unexpected_rows": sorted(map(list, got - want)), "missing_rows": sorted(map(list, want - got)),
                        "imprecision": it.imprecise} if got != want or it.imprecise else {"rows": len(got)})
@@ -149,67 +221,15 @@ def run(ctx):
 
     # ---- C15.a every filter list consulted -------------------------------------------
     VOF = SL + "ValidationOutputFilters"
-    adt = f.adts.get(VOF)
-    b = f.body(VOF + "::drop_payload")
-    if adt is None or b is None:
-        ctx.missing("R-SIB", "ValidationOutputFilters::drop_payload", VOF)
-    else:
-        ctx.saw_fn(b.name)
-        oc = outcome(b)
-        fields = []
-        for fl in adt["variants"][0]["fields"]:
-            m = re.search(r"std::vec::Vec<([\w:]+)>", fl["ty"])
-            if m and f.body(m.group(1) + "::drop_payload") is not None:
-                fields.append((fl["name"], m.group(1)))
-        ctx.floor("R-SIB", "filter lists with a drop_payload element method", len(fields), 3)
-        calls = {}
-        for c in b.calls():
-            if b.is_cleanup(c.bb) or not c.is_static or c.name != "drop_payload":
-                continue
-            a = K.arg_renders(c)
-            calls[c.res] = (c, a)
-        for fname, ety in fields:
-            key = ety + "::drop_payload"
-            hit = calls.get(key)
-            ok = False
-            detail = None
-            if hit:
-                c, a = hit
-                detail = a
-                src_ok = re.search(r"self\.%s\b" % fname, a[0]) is not None and a[1] == "payload"
-                # true edge of the call's result returns true
-                t_ok = False
-                for bi, blk in enumerate(b.blocks):
-                    t = blk["term"]
-                    if t["t"] == "switch" and t.get("dty") == "bool":
-                        at = bool_atom(oc.sym.operand(t["discr"]))
-                        if at and isinstance(at[0], tuple) and at[0][1] == key:
-                            e = switch_bool_edges(b, bi)
-                            true_t = e[1] if at[3] else e[0]
-                            reach = b.reachable(true_t, removed_blocks=oc.fail_blocks)
-                            # on the true edge the function must return true without consulting anything else
-                            t_ok = any(r in reach for r in oc.returns()) and not any(
-                                b.term(x)["t"] == "switch" for x in reach)
-                ok = src_ok and t_ok
-            ctx.ob("R-SIB", "ValidationOutputFilters::drop_payload:consults-%s" % fname, ok,
-                   "drop_payload applies every %s filter (self.%s) to the payload and drops on a match" % (short(ety), fname),
-                   where=b.loc, detail=detail or "no call to %s" % key)
-        # only-if: true is returned only behind a matching filter
-        from engine.rules import MustPass, guard_edges, pred_matcher
-        g = pred_matcher(r"(PrefixFilter|BgpsecFilter|AspaFilter)::drop_payload$", ())
-        mp = MustPass(f, lambda c: False, guard_fn=lambda bd, s, bb: guard_edges(bd, s, bb, g), name="some filter matched")
-        ok = mp.holds(b.name)
-        ctx.ob("R-SIB", "ValidationOutputFilters::drop_payload:true-only-on-match", ok,
-               "drop_payload returns true only on the true edge of some filter's drop_payload", where=b.loc,
-               detail=None if ok else K.why(f, mp, b.name))
+    check_container_drop(ctx, f)
     sb = f.body(SL + "SlurmFile::drop_payload")
     if sb is not None:
         vals = [render(t) for _, _, t in success_values(sb)]
         allv = set()
         for c in sb.calls():
             if c.is_static and not sb.is_cleanup(c.bb):
-                allv.add((c.res, tuple(K.arg_renders(c))))
-        ctx.ob("R-FLOW", "SlurmFile::drop_payload:delegates", allv == {(VOF + "::drop_payload", ("self.filters", "payload"))},
+                allv.add((c.res, tuple(K.alpha(x, sb) for x in K.arg_renders(c))))
+        ctx.ob("R-FLOW", "SlurmFile::drop_payload:delegates", allv == {(VOF + "::drop_payload", ("self.filters", "%2"))},
                "SlurmFile::drop_payload is the filters' verdict on the same payload", where=sb.loc, detail=sorted(map(str, allv)))
 
     # ---- C15.c assertions carry their fields ---------------------------------------------
@@ -239,31 +259,7 @@ def run(ctx):
         vals = [render(t) for _, _, t in success_values(b)]
         ok = len(vals) == 1 and re.match(r"^payload::Payload::%s\{0: %s\}$" % (variant, flds), vals[0]) is not None
         ctx.ob("R-FLOW", short(ctor), ok, "%s wraps its arguments unchanged" % short(ctor), where=b.loc, detail=vals)
-    ib = f.body(SL + "LocallyAddedAssertions::iter_payload")
-    if ib is None:
-        ctx.missing("R-FLOW", "iter_payload", SL + "LocallyAddedAssertions::iter_payload")
-    else:
-        ctx.saw_fn(ib.name)
-        vals = [render(t) for _, _, t in success_values(ib)]
-        r = vals[0] if vals else ""
-        # whole lists, mapped element-wise, chained — in any nesting / order, with no other adaptor
-        norm = re.sub(r"closure:iter_payload::\{closure#\d+\}\[\]", "C", r)
-        parts = sorted(re.findall(r"Iterator::map\(([^,()]+), C\)", norm))
-        skeleton = re.sub(r"Iterator::map\([^,()]+, C\)", "M", norm)
-        ok = len(vals) == 1 and skeleton in ("Iterator::chain(M, Iterator::chain(M, M))", "Iterator::chain(Iterator::chain(M, M), M)") \
-            and len(parts) == 3 and "self.prefix" in parts and "self.bgpsec" in parts and \
-            any(p_ in ("$aspa", "self.aspa") or "aspa" in p_ for p_ in parts)
-        # the aspa operand is the whole optional list (or the empty default)
-        asp = [d_ for d_ in K.sym_of(ib).defs_of_var(next((l for l in range(len(ib.locals)) if ib.local_name(l) == "aspa"), -1))]
-        asp_r = sorted(render(strip_deep(t)) for _, t in asp)
-        ok = ok and (not asp_r or all(re.search(r"self\.aspa↓Some\.0|Default::default\(\)", x) for x in asp_r))
-        # each mapped closure calls the element's to_payload
-        kids = [f.body(n) for n in f.children(ib.name)]
-        tp = sorted(c.res for k in kids if k is not None for c in k.calls() if c.name == "to_payload")
-        ok = ok and tp == sorted(want)
-        ctx.ob("R-FLOW", "iter_payload:chains-all-three", ok,
-               "iter_payload yields the payloads of all prefix, bgpsec and aspa assertions", where=ib.loc,
-               detail={"value": r, "mapped": tp})
+    check_iter_payload(ctx, f, want)
 
 
 def check_handwritten_serializers(ctx, f):
@@ -293,3 +289,246 @@ def check_handwritten_serializers(ctx, f):
                    "%s: field %s %s" % (short(K.root_fn_name(f, name)), fld, what), where=c.where(),
                    detail={"value": val, "conditions": guards})
     ctx.floor("R-FLOW", "fields written by hand-written serializers in slurm.rs", n, 6)
+
+
+# ---------------------------------------------------------------------------------------------
+# C15.a — the container's verdict is "some filter of some list matches"
+
+def _unmut(t):
+    t = strip_deep(t)
+    while t[0] == "mvar":
+        t = strip_deep(t[3])
+    return t
+
+
+def _is_empty_seq(t):
+    t = _unmut(t)
+    if t[0] == "agg" and t[1] in ("array", "tuple") and not t[3]:
+        return True
+    if t[0] == "call" and (t[3] or {}).get("name") == "default" and not t[2]:
+        return True
+    return False
+
+
+def whole_list(f, b, sy, coll, fname):
+    """Does iterating `coll` visit every element of the filter list `self.<fname>`?  Accepted: the list itself; an
+    optional list flattened (`self.x.iter().flatten()`); the payload of the optional list (`self.x↓Some.0`, reached
+    only when there is one); a local that is that payload when the list is present and an empty sequence exactly when
+    it is absent."""
+    t = _unmut(coll)
+    fld = r"^self\.%s$" % re.escape(fname)
+    r = render(t)
+    if re.match(fld, r):
+        return True
+    if t[0] == "call" and (t[3] or {}).get("name") == "flatten" and (t[3] or {}).get("trait") == "std::iter::Iterator" \
+            and len(t[2]) == 1 and re.match(fld, render(_unmut(t[2][0]))):
+        return True
+    some = r"^self\.%s↓Some\.0$" % re.escape(fname)
+    if re.match(some, r):
+        return True
+    if t[0] == "var":
+        defs = sy.defs_of_var(t[2])
+        n_some = 0
+        for dbb, dt in defs:
+            if re.match(some, render(_unmut(dt))):
+                n_some += 1
+            elif _is_empty_seq(dt) and ("discr(self.%s) in {0}" % fname) in K.dominating_guards(f, b, dbb):
+                pass
+            else:
+                return False
+        return n_some >= 1
+    return False
+
+
+def _element_of(t):
+    """`next(it)↓Some.0` (the element a `for` loop / `while let` is looking at) -> the term iterated, else None."""
+    t = strip_deep(t)
+    if t[0] == "field" and str(t[2]) == "0":
+        v = strip_deep(t[1])
+        if v[0] == "variant" and v[2] == "Some":
+            c = strip_deep(v[1])
+            if c[0] == "call" and (c[3] or {}).get("name") == "next" and (c[3] or {}).get("trait") == "std::iter::Iterator" and c[2]:
+                return c[2][0]
+    return None
+
+
+def _closure_is_pred(f, ct, payload_text):
+    """A closure `|x| Filter::drop_payload(x, payload)`: returns (callee, ok) — ok iff its result is true exactly when
+    that call is (both directions decided over the closure's paths)."""
+    from engine import orderlogic as OL
+    from engine import sym as symmod
+    from engine.sym import Sym
+    cb, m = K.closure_env(f, ct, "<element>")
+    if cb is None:
+        return None, False
+    keys = sorted({c.res for c in cb.calls() if c.is_static and c.name == "drop_payload" and not cb.is_cleanup(c.bb)})
+    if len(keys) != 1:
+        return None, False
+    rx = r"^%s\(<element>, %s\)$" % (re.escape(short(keys[0])), re.escape(payload_text))
+    with symmod.substituting(m):
+        ok_t, _ = OL.implies(cb, Sym(cb), True, K.pred_lit(rx, True))
+        ok_f, _ = OL.implies(cb, Sym(cb), False, K.pred_lit(rx, False))
+    return keys[0], ok_t and ok_f
+
+
+def check_container_drop(ctx, f):
+    from engine import orderlogic as OL
+    from engine.rules import MustPass, guard_edges, pred_matcher
+    VOF = SL + "ValidationOutputFilters"
+    adt = f.adts.get(VOF)
+    b = f.body(VOF + "::drop_payload")
+    if adt is None or b is None:
+        return ctx.missing("R-SIB", "ValidationOutputFilters::drop_payload", VOF)
+    ctx.saw_fn(b.name)
+    oc = outcome(b)
+    sy = oc.sym
+    fields = []
+    for fl in adt["variants"][0]["fields"]:
+        m = re.search(r"std::vec::Vec<([\w:]+)>", fl["ty"])
+        if m and f.body(m.group(1) + "::drop_payload") is not None:
+            fields.append((fl["name"], m.group(1)))
+    ctx.floor("R-SIB", "filter lists with a drop_payload element method", len(fields), 3)
+    payload = b.local_name(2) or "_2"
+    try:
+        ps = OL.paths(b, sy)            # loop-free (iterator combinators): decided path by path
+    except OL.NotComparisonOnly:
+        ps = None
+
+    # the places where "some element of a collection matches" is computed:
+    #   loop form        Filter::drop_payload(<element of an iteration over C>, payload), looked at inside the loop
+    #   combinator form  C.iter().any(|x| Filter::drop_payload(x, payload))
+    sources = []        # dicts: key (callee), coll (term iterated), payload_ok, drops (a match makes the function return true), text
+    for c in b.calls():
+        if b.is_cleanup(c.bb) or not c.is_static or c.name != "drop_payload":
+            continue
+        a = K.arg_terms(c)
+        coll = _element_of(a[0]) if a else None
+        t_ok = False
+        for bi, blk in enumerate(b.blocks):
+            t = blk["term"]
+            if t["t"] == "switch" and t.get("dty") == "bool":
+                at = bool_atom(sy.operand(t["discr"]))
+                if at and isinstance(at[0], tuple) and at[0][1] == c.res and (at[1] and (strip_deep(at[1][0]) == a[0])):
+                    e = switch_bool_edges(b, bi)
+                    true_t = e[1] if at[3] else e[0]
+                    reach = b.reachable(true_t, removed_blocks=oc.fail_blocks)
+                    # on the true edge the function must return true without consulting anything else
+                    t_ok = any(r in reach for r in oc.returns()) and not any(b.term(x)["t"] == "switch" for x in reach)
+        sources.append({"key": c.res, "coll": coll, "payload_ok": len(a) == 2 and render(a[1]) == payload, "drops": t_ok,
+                        "text": [render(x) for x in a], "form": "loop"})
+    any_atoms = {}
+    for c, name, ct in K.combinator_calls(f, b, r".", names=("any",)):
+        key, pred_ok = _closure_is_pred(f, ct, payload)
+        if key is None:
+            continue
+        a = K.arg_terms(c)
+        text = render(strip_deep(sy.call(b.term(c.bb), c.bb)))
+        drops = False
+        if ps is not None and pred_ok:
+            drops = True
+            for conds, ret in ps:
+                contradicted = False
+                for at, truth in conds:
+                    while at[0] == "not":
+                        at, truth = at[1], not truth
+                    if at[0] == "opaque" and at[1] == text and not truth:
+                        contradicted = True
+                if contradicted:
+                    continue
+                r = OL.atom(ret) if ret is not None else ("opaque", "<nothing>")
+                neg = False
+                while r[0] == "not":
+                    r, neg = r[1], not neg
+                if r[0] == "const":
+                    if bool(r[1]) == neg:           # returns false although this list has a matching filter
+                        drops = False
+                elif not (r[0] == "opaque" and r[1] == text and not neg):
+                    drops = False
+        if pred_ok:
+            any_atoms[text] = key
+        sources.append({"key": key, "coll": a[0], "payload_ok": pred_ok, "drops": drops, "text": [render(x) for x in a],
+                        "form": "any"})
+
+    for fname, ety in fields:
+        key = ety + "::drop_payload"
+        mine = [s_ for s_ in sources if s_["key"] == key]
+        ok = any(s_["coll"] is not None and whole_list(f, b, sy, s_["coll"], fname) and s_["payload_ok"] and s_["drops"] for s_ in mine)
+        ctx.ob("R-SIB", "ValidationOutputFilters::drop_payload:consults-%s" % fname, ok,
+               "drop_payload applies every %s filter (self.%s) to the payload and drops on a match" % (short(ety), fname),
+               where=b.loc, detail=[{k: v for k, v in s_.items() if k != "coll"} for s_ in mine] or "no call to %s" % key)
+    # only-if: true is returned only behind a matching filter
+    if ps is not None and any_atoms:
+        def lit(a):
+            if a[0] == "opaque" and a[1] in any_atoms:
+                return True
+            return None
+        ok, why_not = OL.implies(b, sy, True, lit)
+        detail = None if ok else why_not
+    else:
+        g = pred_matcher(r"(PrefixFilter|BgpsecFilter|AspaFilter)::drop_payload$", ())
+        mp = MustPass(f, lambda c: False, guard_fn=lambda bd, s, bb: guard_edges(bd, s, bb, g), name="some filter matched")
+        ok = mp.holds(b.name)
+        detail = None if ok else K.why(f, mp, b.name)
+    ctx.ob("R-SIB", "ValidationOutputFilters::drop_payload:true-only-on-match", ok,
+           "drop_payload returns true only on the true edge of some filter's drop_payload", where=b.loc, detail=detail)
+
+
+# ---------------------------------------------------------------------------------------------
+# C15.c — iter_payload is the concatenation of the three assertion lists, each mapped through to_payload
+
+def _maps_through(f, fn_term):
+    """The function a `map` applies, if it is `X::to_payload` itself or a closure `|x| x.to_payload()` -> def path."""
+    from engine import sym as symmod
+    t = strip(fn_term)
+    if t[0] == "fnref":
+        return t[1]
+    if t[0] == "closure":
+        cb, m = K.closure_env(f, t, "<element>")
+        if cb is None:
+            return None
+        with symmod.substituting(m):
+            vals = [v for _, _, v in success_values(cb)]
+            if len(vals) == 1 and vals[0][0] == "call" and len(vals[0][2]) == 1 and render(vals[0][2][0]) == "<element>":
+                return vals[0][1]
+    return None
+
+
+def check_iter_payload(ctx, f, want):
+    LA = SL + "LocallyAddedAssertions"
+    ib = f.body(LA + "::iter_payload")
+    adt = f.adts.get(LA)
+    if ib is None or adt is None:
+        return ctx.missing("R-FLOW", "iter_payload", LA + "::iter_payload")
+    ctx.saw_fn(ib.name)
+    sy = K.sym_of(ib)
+    fields = {}
+    for fl in adt["variants"][0]["fields"]:
+        m = re.search(r"std::vec::Vec<([\w:]+)>", fl["ty"])
+        if m and (m.group(1) + "::to_payload") in want:
+            fields[m.group(1) + "::to_payload"] = fl["name"]
+    vals = [t for _, _, t in success_values(ib)]
+    leaves, other = [], []
+
+    def split(t):
+        # whole lists, mapped element-wise, chained — in any nesting / order, with no other adaptor
+        t = strip_deep(t)
+        info = (t[3] or {}) if t[0] == "call" else {}
+        if info.get("name") == "chain" and info.get("trait") == "std::iter::Iterator" and len(t[2]) == 2:
+            split(t[2][0])
+            split(t[2][1])
+        elif info.get("name") == "map" and info.get("trait") == "std::iter::Iterator" and len(t[2]) == 2:
+            leaves.append((t[2][0], _maps_through(f, t[2][1])))
+        else:
+            other.append(render(t)[:160])
+    for v in vals:
+        split(v)
+    mapped = sorted(str(fn) for _, fn in leaves)
+    ok = len(vals) == 1 and not other and mapped == sorted(want) and len(fields) == len(want)
+    bad = []
+    if ok:
+        for coll, fn in leaves:
+            if not whole_list(f, ib, sy, coll, fields[fn]):
+                bad.append({"list": fields[fn], "iterates": render(strip_deep(coll))[:200]})
+    ctx.ob("R-FLOW", "iter_payload:chains-all-three", ok and not bad,
+           "iter_payload yields the payloads of all prefix, bgpsec and aspa assertions", where=ib.loc,
+           detail={"value": [render(v) for v in vals], "mapped": mapped, "not_a_chain_of_maps": other, "not_the_whole_list": bad})
